@@ -26,9 +26,58 @@ def _vacuity(tot):
         raise par.HarnessError("C05 vacuity guard: %d %d" % (tot["nontrivial"], tot.get("exact_states_judged", 0)))
 
 
+def _board_work(shard):
+    from . import boards_c02
+    from .. import run as Rn
+    from ..repo import P1
+    out = {"n": 0, "judged": 0, "violations": []}
+    for lab, inp, g in boards_c02._items(shard):
+        for prune in (True, False):
+            o = Rn.solve(g, prune, cpu_s=shard[2], confirm=False)
+            out["n"] += 1
+            if o.kind != "ok":
+                continue
+            out["judged"] += 1
+            fs, rs = o.result[0], o.result[1]
+            for s_, who in enumerate(g["players"]):
+                if who == P1 and not (isinstance(fs[s_], list) and isinstance(rs[s_], list) and set(fs[s_]) <= set(rs[s_])):
+                    out["violations"].append({"kind": "board", "klass": "C05/board-not-subset", "input": inp, "config": {"prune": prune, "cpu_s": shard[2]},
+                                              "observed": fs[s_], "expected": rs[s_],
+                                              "explanation": "%s prune=%s: Player 1 state %d has final strategy %r outside its reachability strategy %r" % (lab, prune, s_, fs[s_], rs[s_])})
+                    break
+    return out
+
+
 def run(ctx):
-    return sweep.run_plan(ctx, PROP, plan(ctx), RULE, ASSUME, vacuity=_vacuity)
+    from .. import boards
+    from ..inputs import board_games
+    rep = sweep.run_plan(ctx, PROP, plan(ctx), RULE, ASSUME, vacuity=_vacuity)
+    cpu = 60.0 if ctx.thorough else 3.0
+    shards = [("file", (f, nme), cpu) for f, nme, g in board_games(4100 if ctx.thorough else 260)]
+    shards += [("gen", b, cpu) for b in boards.board_list(ctx.thorough, ctx.seed)]
+    tot = par.run_shards(_board_work, shards, ctx.jobs)
+    rep["violations"].extend(tot.get("violations", []))
+    rep["coverage"]["transitions"] += tot["n"]
+    rep["coverage"]["board_runs_judged_for_inclusion"] = tot["judged"]
+    rep["coverage"]["traces_validated_against_impl"] += tot["judged"]
+    return rep
 
 
 def replay(case):
+    if case.get("kind") == "board":
+        from . import boards_c02
+        from .. import run as Rn
+        from ..repo import P1
+        inp = case["input"]
+        shard = ("gen", tuple(inp["generated"][:4]) + (tuple(inp["generated"][4]),), 60.0) if "generated" in inp else ("file", (inp["file"], inp["game"]), 60.0)
+        for lab, i2, g in boards_c02._items(shard):
+            if i2.get("game") != inp["game"]:
+                continue
+            o = Rn.solve(g, case["config"]["prune"], cpu_s=60.0, confirm=False)
+            if o.kind == "ok":
+                fs, rs = o.result[0], o.result[1]
+                for s_, who in enumerate(g["players"]):
+                    if who == P1 and not set(fs[s_]) <= set(rs[s_]):
+                        return "state %d: %r not within %r" % (s_, fs[s_], rs[s_])
+        return None
     return sweep.replay_game(PROP, case)
